@@ -125,6 +125,8 @@ func (r *cliRun) replyText(tag, mod string) (string, bool) {
 		return fmt.Sprintf(`{"jsonrpc":"2.0","id":%s,"method":"srvcall","params":[1],"extra":1}`, id), true
 	case strings.Contains(mod, "push"): // a well-formed server request with a colliding id
 		return fmt.Sprintf(`{"jsonrpc":"2.0","id":%s,"method":"srvcall","params":[1]}`, id), true
+	case strings.Contains(mod, "mixed"): // reply AND request members: malformed, but it answers the call (with an error)
+		return fmt.Sprintf(`{"jsonrpc":"2.0","id":%s,"method":"srvcall","result":"res-%s"}`, id, tag), true
 	case strings.Contains(mod, "both"):
 		return fmt.Sprintf(`{"jsonrpc":"2.0","id":%s,"result":"res-%s","error":{"code":9,"message":"e-%s"}}`, id, tag, tag), true
 	case strings.Contains(mod, "err"):
